@@ -137,6 +137,29 @@ def _work(args):
                     probs.append(f"{n} at line {g[1][0]} is reported but is not a function definition")
             if not probs:
                 probs.append(f"order / multiplicity differs: {[g[0] for g in r[1]]} vs {[e[0] for e in exp]}")
+        # the scanner's own route for file names whose language hangs on a case-sensitive or extension-less name pattern
+        # (Widget.C and Header.H are C++, BUILD and SConstruct are Python): the file must be measured as the text is
+        # (seeded change C01-17: the lexer looked up by the lower-cased name)
+        if lang in ("Cpp", "Python") and seed % 6 == 0 and r[0] == 0:
+            import os
+            import shutil
+            import tempfile
+            from pathlib import Path
+            from codelimit.common import Scanner
+            d = tempfile.mkdtemp(prefix="verif_c01_")
+            try:
+                nm = {"Cpp": ["Widget.C", "Header.H"], "Python": ["BUILD", "SConstruct"]}[lang][(seed // 6) % 2]
+                with open(os.path.join(d, nm), "w", encoding="utf8", newline="") as f:
+                    f.write(text)
+                e = Scanner.scan_path(Path(d)).files.get(nm)
+                via_file = None if e is None else [[m.unit_name, [m.start.line, m.start.column], [m.end.line, m.end.column], m.value] for m in e.measurements()]
+                if via_file != r[1]:
+                    probs.append(f"scanned from disk as {nm} the program reports {None if via_file is None else [m[0] + ':' + str(m[3]) for m in via_file]}, "
+                                 f"as {lang} text {[g[0] + ':' + str(g[3]) for g in r[1]]}")
+            except Exception as ex:
+                probs.append(f"scanning the program as a file raised {type(ex).__name__}: {ex}")
+            finally:
+                shutil.rmtree(d, ignore_errors=True)
         toks = LC.impl_lex(lang, text) if len(text) < 6000 else None
         nontrivial = len(exp) >= 1 and (len(exp) >= 2 or len(p["features"]) >= 3)
         ds = None
